@@ -1,7 +1,7 @@
 (* Request/response interface of the executable model: one S-expression in,
    one out.  Shared by the extracted runner and the in-Coq path. *)
 From InfluxQL Require Import Base.Prelude Base.Sexp Base.Oracles Lex.Token Lex.Reader Lex.Scanner Ast.Ast Ast.SexpAst
-  Val.Duration Parse.ExprTree Parse.Instr Parse.ParseExpr Parse.ParseStmts Ast.Printer Ast.PrinterStmts Parse.Params Ast.Privileges Ast.ColumnNames Sem.Eval Sem.Reduce Sem.Condition Ast.Clone Ast.GroupBy San.Sanitize Lex.Quote Sem.Regex Sem.RewriteFields.
+  Val.Duration Parse.ExprTree Parse.Instr Parse.ParseExpr Parse.ParseStmts Ast.Printer Ast.PrinterStmts Parse.Params Ast.Privileges Ast.ColumnNames Sem.Eval Sem.Reduce Sem.Condition Ast.Clone Ast.GroupBy San.Sanitize Lex.Quote Sem.Regex Sem.RewriteFields Sem.SetTimeRange.
 
 Definition bad_request : sexp := L [A (-1)].
 
@@ -285,6 +285,11 @@ Definition dispatch1 (orc : oracles) (req : sexp) : sexp :=
       | 29%nat, [sc; q] =>
           match sd_schema sc, sd_select q with
           | Some sc', Some q' => se_res se_select (rewrite_fields_sch orc sc' q')
+          | _, _ => bad_request
+          end
+      | 30%nat, [c; ws] =>
+          match sd_opt sd_expr c, sd_list (fun p => match p with L [A a; A b] => Some (a, b) | _ => None end) ws with
+          | Some c', Some ws' => se_list se_expr (set_time_ranges orc c' ws')
           | _, _ => bad_request
           end
       | 12%nat, [e] => match sd_expr e with Some e' => se_text (print_expr orc e') | None => bad_request end
